@@ -68,7 +68,7 @@ def h_pbc_k3():
     import pyscf.pbc.gto
     import pyscf.pbc.scf
     cell = pyscf.pbc.gto.M(atom="H 0.3 0.2 0.1; H 1.6 0.9 1.2", basis="sto-3g", unit="bohr", a=np.array([[3.6, 0, 0], [0.7, 4.4, 0], [0.2, -0.5, 4.8]]), verbose=0)
-    mf = pyscf.pbc.scf.KRKS(cell, cell.make_kpts((3, 1, 1))).run()
+    mf = pyscf.pbc.scf.KRKS(cell, cell.make_kpts((3, 1, 1), wrap_around=True)).run()  # k = 0, +1/3, -1/3: the k-points of the tripled cell sum to zero
     return cell, mf
 
 
